@@ -287,14 +287,30 @@ def run(ctx, eng):
            'request_method = extract_method_header(headers) when the block '
            'has a :method', node=f5.node)
     f6 = m.func('utilities.extract_method_header')
-    ok = False
+    ok = cm.Every()
     for p in eng.I.run(f6):
         if p.exit == 'return' and p.value != T.NONE:
             conds = [e.cond for e in p.events if e.kind == 'assume']
-            ok = ok or any(
-                c[0] == 'in' and cm.tuple_items(c[2]) is not None and
-                {cm.const_of(x) for x in cm.tuple_items(c[2])} ==
-                {b':method', ':method'} for c in conds)
+            shows = [cm.show0(c) for c in conds]
+            v = cm.show0(p.value)
+            # the value of the :method field, as bytes: returned as it is
+            # when IT is bytes, encoded otherwise (the test is on the value,
+            # not on the name: a block may mix the two types)
+            val = None
+            for c in shows:
+                if c.startswith('isinstance(') and c.endswith(', bytes)'):
+                    val = (c[len('isinstance('):-len(', bytes)')], True)
+                elif c.startswith('not isinstance(') and \
+                        c.endswith(', bytes)'):
+                    val = (c[len('not isinstance('):-len(', bytes)')], False)
+            ok(any(c[0] == 'in' and cm.tuple_items(c[2]) is not None and
+                   {cm.const_of(x) for x in cm.tuple_items(c[2])} ==
+                   {b':method', ':method'} for c in conds) and
+               val is not None and (
+                   v == val[0] if val[1] else
+                   v in (".encode(%s, 'utf-8')" % val[0],
+                         ".encode(%s, 'ascii')" % val[0],
+                         ".encode(%s)" % val[0])))
     ctx.ob('FLOW.method', f6.qual, 'selects :method', ok,
            'returns the value of :method as bytes', node=f6.node)
     ctx.assume('sums over DATA chunkings are not decided (the accumulator\'s '
